@@ -13,7 +13,7 @@ import pgpy.constants as K
 install_oracle()
 warnings.simplefilter('ignore')
 
-FUNCTIONS_ENCODED = ['pgpy.packet.packets.PrivKeyV4.pubkey', 'pgpy.pgp.PGPKey.pubkey', 'pgpy.pgp.PGPKey.__bytearray__', 'pgpy.pgp.PGPKey.__or__',
+FUNCTIONS_ENCODED = ['pgpy.packet.fields.SubPackets.__copy__', 'pgpy.pgp.PGPSignature.__copy__', 'pgpy.packet.packets.PrivKeyV4.pubkey', 'pgpy.pgp.PGPKey.pubkey', 'pgpy.pgp.PGPKey.__bytearray__', 'pgpy.pgp.PGPKey.__or__',
                      'pgpy.decorators.KeyAction.__call__', 'pgpy.decorators.KeyAction.check_attributes', 'pgpy.pgp.PGPKey.add_uid', 'pgpy.pgp.PGPKey.add_subkey',
                      'pgpy.packet.packets.PrivKeyV4.parse', 'pgpy.packet.fields.*Priv.parse']
 STUBS = ['signature primitive -> oracle (keys are real Ed25519 keys; no signature is verified here)']
@@ -90,7 +90,10 @@ def pubkey_creation_time(zi: int, si: int, eddsa: bool, sub: bool, a: int, b: in
     alg, pubmat, mk = materials(3 if eddsa else 0)
     sk = Packet(bytearray(pack(7 if sub else 5, pub_body(alg, pubmat) + b'\x00' + mk(a, b, a, b) + b'\x00\x00', 0)))
     if zone is None:
-        sk.created = datetime.fromtimestamp(stamp, timezone.utc).replace(tzinfo=None)        # naive values are taken as UTC
+        try:
+            sk.created = datetime.fromtimestamp(stamp, timezone.utc).replace(tzinfo=None)    # naive values are taken as UTC (with a warning)
+        except (TypeError, ValueError):
+            return True                                                                    # (refusing them would be fine, too)
     else:
         sk.created = datetime.fromtimestamp(stamp, zone)
     t4 = bytes([(stamp // 16777216) % 256, (stamp // 65536) % 256, (stamp // 256) % 256, stamp % 256])
